@@ -350,6 +350,188 @@ fn dispatch(kind: usize, ctx: &mut Ctx, rng: &mut Rng, w: usize, max_off: usize,
 
 const KIND_BITS: [usize; 12] = [8, 16, 32, 64, 8, 16, 32, 64, 8, 16, 32, 64];
 
+/// one put on an existing assembler (any carrier), returning success and the cursor
+fn put_dyn(asm: &mut Assembler, kind: usize, v: i128, w: usize) -> (bool, usize) {
+    macro_rules! go {
+        ($K:ty) => {{
+            let r = asm.put::<<$K as Kind>::BV>(<$K as Kind>::from_i128(v), w);
+            (r.is_ok(), asm.offset())
+        }};
+    }
+    match kind {
+        0 => go!(KU8),
+        1 => go!(KU16),
+        2 => go!(KU32),
+        3 => go!(KU64),
+        4 => go!(KI8),
+        5 => go!(KI16),
+        6 => go!(KI32),
+        7 => go!(KI64),
+        8 => go!(KSM8),
+        9 => go!(KSM16),
+        10 => go!(KSM32),
+        _ => go!(KSM64),
+    }
+}
+
+fn parse_dyn(par: &mut Parser, kind: usize, w: usize) -> (Option<i128>, usize) {
+    macro_rules! go {
+        ($K:ty) => {{
+            let r = par.parse::<<$K as Kind>::BV>(w);
+            (r.ok().map(<$K as Kind>::to_i128), par.offset())
+        }};
+    }
+    match kind {
+        0 => go!(KU8),
+        1 => go!(KU16),
+        2 => go!(KU32),
+        3 => go!(KU64),
+        4 => go!(KI8),
+        5 => go!(KI16),
+        6 => go!(KI32),
+        7 => go!(KI64),
+        8 => go!(KSM8),
+        9 => go!(KSM16),
+        10 => go!(KSM32),
+        _ => go!(KSM64),
+    }
+}
+
+const KIND_SIGN: [Sign; 12] = [Sign::U, Sign::U, Sign::U, Sign::U, Sign::I, Sign::I, Sign::I, Sign::I, Sign::SM, Sign::SM, Sign::SM, Sign::SM];
+
+/// A message body is written by many consecutive puts on ONE assembler and read by many
+/// consecutive parses on ONE parser: model-based sequences (2..14 fields back to back, any mix
+/// of carriers and widths, wide fields included), the buffer compared with the reference
+/// after every single put.
+fn check_sequence(ctx: &mut Ctx, rng: &mut Rng) {
+    ctx.eval();
+    let len = 48usize;
+    let mut bg = vec![0u8; len];
+    match rng.below(3) {
+        0 => {}
+        1 => bg.iter_mut().for_each(|b| *b = 0xFF),
+        _ => rng.fill(&mut bg),
+    }
+    // one sequence in four is "small field, very wide field, small field, ..." starting near an
+    // 8-byte boundary: several fields sharing one machine word with a wide one among them
+    let packed = rng.chance(1, 4);
+    let start = if packed { 64 * rng.usize_below(2) + rng.usize_below(8) } else { rng.usize_below(24) };
+    let nf = rng.range(2, 14) as usize;
+    let mut fields: Vec<(usize, usize, i128)> = Vec::new(); // kind, width, value
+    let mut total = start;
+    for fi in 0..nf {
+        let kind = if packed { if fi % 2 == 1 { [3usize, 7, 11][rng.usize_below(3)] } else { rng.usize_below(12) } } else { rng.usize_below(12) };
+        let bits_max = KIND_BITS[kind];
+        let w = if packed {
+            if fi % 2 == 1 {
+                rng.range(48, 64) as usize
+            } else {
+                rng.range(1, 5.min(bits_max as i64)) as usize
+            }
+        } else {
+            0
+        };
+        let w = if w != 0 { w } else { match rng.below(6) {
+            0 => bits_max,
+            1 => rng.range((bits_max as i64 - 7).max(1), bits_max as i64) as usize,
+            2 => rng.range(1, 8.min(bits_max as i64)) as usize,
+            _ => rng.range(1, bits_max as i64) as usize,
+        } };
+        if total + w > len * 8 {
+            break;
+        }
+        let (lo, hi) = range(KIND_SIGN[kind], w);
+        let v = match rng.below(5) {
+            0 => 0,
+            1 => lo,
+            2 => hi,
+            _ => lo + ((((rng.u64() as u128) << 64) | rng.u64() as u128) % ((hi - lo) as u128 + 1)) as i128,
+        };
+        fields.push((kind, w, v));
+        total += w;
+    }
+    let mut h = crate::rng::hash_bytes(&bg);
+    for f in &fields {
+        h = crate::rng::mix(h, (f.0 as u64) << 56 ^ (f.1 as u64) << 48 ^ f.2 as u64);
+    }
+    ctx.nontrivial(h);
+    let replay = || json!({"kind":"sequence","background":hex(&bg),"start":start,"fields":fields.iter().map(|f| json!([KIND_NAMES[f.0], f.1, f.2.to_string()])).collect::<Vec<_>>()});
+    let mut buf = bg.clone();
+    let mut exp = bg.clone();
+    let r = guard(|| {
+        let mut bad: Option<(usize, String)> = None;
+        let mut asm = Assembler::new(&mut buf[..], start);
+        let mut pos = start;
+        let mut snapshots: Vec<(bool, usize)> = Vec::new();
+        for (i, &(kind, w, v)) in fields.iter().enumerate() {
+            let (ok, off) = put_dyn(&mut asm, kind, v, w);
+            snapshots.push((ok, off));
+            pos += w;
+            if !ok || off != pos {
+                bad = Some((i, format!("put #{} ({} w={} v={}) ok={} cursor={} expected {}", i, KIND_NAMES[kind], w, v, ok, off, pos)));
+                break;
+            }
+        }
+        bad
+    });
+    match r {
+        Err(p) => {
+            ctx.panic_violation("C07.no_panic", &p, "a sequence of puts on one assembler", replay());
+            return;
+        }
+        Ok(Some((_, why))) => {
+            ctx.violation("C07.sequence|put_status".into(), "C07.sequence", why, replay());
+            return;
+        }
+        Ok(None) => {}
+    }
+    // the final buffer must equal the reference; to localise, rebuild the reference step by step
+    let mut pos = start;
+    for &(kind, w, v) in &fields {
+        bits::write(&mut exp, pos, w, ref_pattern(KIND_SIGN[kind], v, w));
+        pos += w;
+    }
+    if buf != exp {
+        // which field is wrong?
+        let mut pos = start;
+        let mut culprit = String::from("bits outside all fields");
+        for (i, &(kind, w, _v)) in fields.iter().enumerate() {
+            if bits::read(&buf, pos, w) != bits::read(&exp, pos, w) {
+                culprit = format!("field #{} ({} w={} at bit {})", i, KIND_NAMES[kind], w, pos);
+                break;
+            }
+            pos += w;
+        }
+        ctx.violation(
+            "C07.sequence|buffer".into(),
+            "C07.sequence",
+            format!("after {} consecutive puts on one assembler the buffer differs from the reference in {}: got {} expected {}", fields.len(), culprit, hex(&buf), hex(&exp)),
+            replay(),
+        );
+        return;
+    }
+    // read everything back with one parser
+    let r = guard(|| {
+        let mut par = Parser::new(&exp[..], start);
+        let mut pos = start;
+        for (i, &(kind, w, v)) in fields.iter().enumerate() {
+            let (got, off) = parse_dyn(&mut par, kind, w);
+            pos += w;
+            if got != Some(v) || off != pos {
+                return Some(format!("parse #{} ({} w={}): got {:?} expected {}, cursor {} expected {}", i, KIND_NAMES[kind], w, got, v, off, pos));
+            }
+        }
+        None
+    });
+    match r {
+        Err(p) => ctx.panic_violation("C07.no_panic", &p, "a sequence of parses on one parser", replay()),
+        Ok(Some(why)) => ctx.violation("C07.sequence|parse".into(), "C07.sequence", why, replay()),
+        Ok(None) => {}
+    }
+    ctx.count("sequences_of_puts_and_parses");
+    ctx.count_n("fields_in_sequences", fields.len() as u64);
+}
+
 pub fn run(p: &Params) -> Outcome {
     let seed = p.seed;
     let (max_off, n_bg, n_random) = if p.thorough { (135usize, 8usize, 4000usize) } else { (135, 4, 300) };
@@ -368,6 +550,15 @@ pub fn run(p: &Params) -> Outcome {
         let mut rng = Rng::derive(seed, "C07", (k * 100 + w) as u64);
         dispatch(k, ctx, &mut rng, w, max_off, n_bg, n_random);
     });
+    let n_seq = p.size(400_000, 40_000_000);
+    let per = n_seq / p.workers as u64;
+    let seqs = par::run(p.workers, move |w, _n, ctx| {
+        let mut rng = Rng::derive(seed, "C07.seq", w as u64);
+        for _ in 0..per {
+            check_sequence(ctx, &mut rng);
+        }
+    });
+    total.merge(seqs);
     total.exhaustive_parts.push("carriers {U,I,SM}x{8,16,32,64} x every width 1..=carrier x every bit offset in the stated range; all representable values and all patterns for widths <= 12".into());
     if total.get("overflow_cases") == 0 {
         total.inconclusive("overflow path not exercised".into());
@@ -382,6 +573,30 @@ pub fn run(p: &Params) -> Outcome {
 
 pub fn replay(_p: &Params, v: &Value) -> Outcome {
     let mut ctx = Ctx::new(0);
+    if v["kind"] == "sequence" {
+        // re-run the recorded sequence
+        let bg = unhex(v["background"].as_str().unwrap_or(""));
+        let start = v["start"].as_u64().unwrap_or(0) as usize;
+        let fields: Vec<(usize, usize, i128)> = v["fields"].as_array().map(|a| a.iter().map(|f| (KIND_NAMES.iter().position(|x| Some(*x) == f[0].as_str()).unwrap_or(0), f[1].as_u64().unwrap_or(1) as usize, f[2].as_str().and_then(|s| s.parse().ok()).unwrap_or(0))).collect()).unwrap_or_default();
+        ctx.eval();
+        let mut buf = bg.clone();
+        let mut exp = bg.clone();
+        let r = guard(|| {
+            let mut asm = Assembler::new(&mut buf[..], start);
+            for &(kind, w, val) in &fields {
+                let _ = put_dyn(&mut asm, kind, val, w);
+            }
+        });
+        let mut pos = start;
+        for &(kind, w, val) in &fields {
+            bits::write(&mut exp, pos, w, ref_pattern(KIND_SIGN[kind], val, w));
+            pos += w;
+        }
+        if r.is_err() || buf != exp {
+            ctx.violation("C07.sequence|buffer".into(), "C07.sequence", format!("replayed sequence: got {} expected {}", hex(&buf), hex(&exp)), v.clone());
+        }
+        return Outcome { ctx, rule: "replay of one recorded sequence".into(), exhaustive: false, extra: json!({}) };
+    }
     let carrier = v["carrier"].as_str().unwrap_or("");
     let k = KIND_NAMES.iter().position(|x| *x == carrier).unwrap_or(0);
     let w = v["w"].as_u64().unwrap_or(1) as usize;
